@@ -15,6 +15,7 @@
   lemmas are in Galaxy/Lemmas/Total.lean.
 -/
 import Galaxy.Lemmas.Total
+import Galaxy.Lemmas.TotalWalk
 
 namespace Galaxy.Props.C18
 open Galaxy.Total
@@ -57,6 +58,52 @@ theorem walk_hangs_iff_last_is_max (w first last : Nat) (h : first ≤ last) (hl
     exact absurd this (by simp)
   · intro he fuel
     exact walkW_hangs w last he fuel first 0 (by omega)
+
+/-! ### 1b. requested ranges of a pod annotation: `walkConfiguredIPRanges` (D22) -/
+
+/-- Pins that every request-driven walk (`NodeSubnetsByIPRanges`, `AllocateInSubnetsAndIPRange`, `ByKeyAndIPRanges`: the
+ranges come from a pod annotation) goes through `walkConfiguredIPRanges`, never through `walkIPRanges` over the raw
+requested range, and that `walkConfiguredIPRanges` has the shape `walkConfigured` mirrors. -/
+theorem fact_request_walks_clipped :
+    Generated.Total.requestWalksAreClipped = true ∧
+      Generated.Total.requestWalkSites.all (fun s => s.2 == "walkConfiguredIPRanges") = true ∧
+      Generated.Total.requestWalkSites.length = 3 := by decide
+
+/-- C18 "answer … in bounded time … requested ranges … extreme values" (D22): whatever ranges a pod requests (up to
+0.0.0.0~255.255.255.255), the number of addresses walked under the IPAM lock is at most the number of CONFIGURED
+addresses per requested range — it does not depend on the size of the requested ranges. -/
+theorem walkConfigured_cost_bounded (conf reqs : List (Nat × Nat)) :
+    ((reqs.map fun r => (walkRequest conf r.1 r.2).length).sum) ≤ reqs.length * confSize conf := by
+  induction reqs with
+  | nil => simp
+  | cons r t ih =>
+    have h : (walkRequest conf r.1 r.2).length ≤ confSize conf := walkConfigured_length_le conf r.1 r.2
+    simp only [List.map_cons, List.sum_cons, List.length_cons]
+    rw [Nat.add_mul]
+    omega
+
+/-- The clipped walk loses nothing: it visits exactly the requested addresses that are configured (addresses outside
+every pool are in neither cache, so the callbacks of the three sites could not have matched them anyway). -/
+theorem walkConfigured_visits_exactly (conf : List (Nat × Nat)) (first last ip : Nat) :
+    ip ∈ walkRequest conf first last ↔ first ≤ ip ∧ ip ≤ last ∧ ∃ r ∈ conf, r.1 ≤ ip ∧ ip ≤ r.2 :=
+  mem_walkConfigured
+
+/-- … in the order `walkIPRanges` would have used: strictly ascending per requested range (configured ranges do not
+overlap), so "first matching address" picks the same address as before the fix. -/
+theorem walkConfigured_ascending_order (conf : List (Nat × Nat)) (first last : Nat) (h : Disjoint conf) :
+    (walkRequest conf first last).Pairwise (· < ·) :=
+  walkConfigured_ascending first last h
+
+/-- Non-vacuity: pools 10~12 and 20~29, request 0~2^32-1 walks the 13 configured addresses; request 11~21 walks 11,12,20,21. -/
+example : (walkRequest [(20, 29), (10, 12)] 0 (2 ^ 32 - 1)).length = 13 ∧
+    walkRequest [(20, 29), (10, 12)] 11 21 = [11, 12, 20, 21] ∧ Disjoint [(20, 29), (10, 12)] := by
+  refine ⟨by decide, by decide, ?_⟩
+  simp [Disjoint]
+
+/-- Known deviation D22 (fixed): walking the raw requested range costs its size whatever is configured —
+2^32 callbacks under the lock for `0.0.0.0~255.255.255.255` even with no pool at all. -/
+theorem walkConfigured_cost_counter : (walkRequestG false [] 0 (2 ^ 32 - 1)).length = 2 ^ 32 := by
+  simp [walkRequestG, rangeIPs, rangeSize]
 
 /-! ### 2. HTTP query of `ListIPs`: pagination -/
 
